@@ -477,12 +477,22 @@ def _parse_config(raw_cfg: RawConfig) -> Config:
 def _parse_current_version_default_pattern(raw_cfg: RawConfig, raw_cfg_text: str) -> str:
     is_config_section = False
     for line in raw_cfg_text.splitlines():
-        if is_config_section and line.startswith("current_version"):
+        if is_config_section and re.match(r"current_version\s*[=:]", line):
             # NOTE: values from .cfg files may still carry their quotes here.
             #   Only the bare version is replaced, the quoting of the line is kept.
             current_version: str = raw_cfg['current_version'].strip("'\" ")
             version_pattern: str = raw_cfg['version_pattern'].strip("'\" ")
-            return line.replace(current_version, version_pattern)
+            version_idx = line.find(current_version)
+            if version_idx < 0:
+                return line
+
+            # NOTE: the pattern ends with the value. A trailing comment is not part
+            #   of it (it may mention the version or contain brackets).
+            version_end = version_idx + len(current_version)
+            closing_quote = line[version_end : version_end + 1]
+            if closing_quote not in ("'", '"'):
+                closing_quote = ""
+            return line[:version_idx] + version_pattern + closing_quote
 
         if line.strip() == "[pycalver]":
             is_config_section = True
